@@ -195,5 +195,10 @@ def run(ctx) -> None:
     # "never overwritten once present, stable across exports": exports hand out a copy, never the key's own dict
     from .c12 import r12_2
     ctx.guard_as("R13.5", r12_2)
+    from .c11 import r11_11
+    ctx.guard_as("R13.7", r11_11)  # a kid given in a JWK is kept: the dict view of a key built from a JWK holds every given member
+    from .c20 import r20_4
+    from ..effects import Effects
+    ctx.guard_as("R13.6", r20_4, Effects(ctx.eng.prog, ctx.eng.cg))  # the lazily built dict view is filled in place, never rebound (a kid stored meanwhile survives)
     ctx.assume("hashlib digests; JSON serialisation of ASCII member values by json.dumps")
     ctx.note("'kid stays stable' under concurrent use additionally rests on C20 R20.4 (no lost update on the lazy dict view)")
